@@ -60,6 +60,9 @@ type Scn struct {
 	Chunk      []int  `json:"chunk,omitempty"`
 	Variant    string `json:"variant,omitempty"`
 	DiskSrc    bool   `json:"disksrc,omitempty"` // source is fsutil.NewFS over a real directory
+	// MetaOn: metadata-only receive selecting exactly the paths in Meta
+	MetaOn bool     `json:"metaon,omitempty"`
+	Meta   []string `json:"meta,omitempty"`
 }
 
 func (sc Scn) String() string {
@@ -81,6 +84,9 @@ func (sc Scn) String() string {
 	}
 	if sc.DiskSrc {
 		s += " disk-source"
+	}
+	if sc.MetaOn {
+		s += fmt.Sprintf(" metadata-only select=%v", sc.Meta)
 	}
 	return s
 }
@@ -190,6 +196,13 @@ func xferBody(sc Scn, src fsmodel.Tree, srcDir, destDir string, res *XferRes) Bo
 		notes := &xfer.Notes{}
 		hcalls, ncalls := 0, 0
 		opt := fsutil.ReceiveOpt{Differ: fsutil.DiffType(sc.Differ)}
+		if sc.MetaOn {
+			sel := map[string]bool{}
+			for _, p := range sc.Meta {
+				sel[p] = true
+			}
+			opt.MetadataOnly = func(p string, _ *types.Stat) bool { return sel[p] }
+		}
 		if sc.Notify {
 			opt.ContentHasher = func(st *types.Stat) (hash.Hash, error) {
 				mu.Lock()
